@@ -50,8 +50,13 @@ fn deltas() -> Vec<(f64, bool)> {
 }
 
 fn affine_case(m: usize, n: usize, pat: usize, dev: Option<(usize, usize)>, acc: &mut Acc) -> Result<(), String> {
-    let a = build_m(pat, m, n, dev);
-    let c: Vec<f64> = (0..m).map(|i| (i as f64) * 0.5 - 1.0).collect();
+    affine_case_scaled(m, n, pat, dev, 1.0, acc)
+}
+/// `scale` (a power of two) multiplies M and c: with 2^1000 the values f(x) are of order 2^1007 while the quotients (f(x + delta e_j) -
+/// f(x)) / delta are still exactly the entries of M - dividing f itself by delta would overflow
+fn affine_case_scaled(m: usize, n: usize, pat: usize, dev: Option<(usize, usize)>, scale: f64, acc: &mut Acc) -> Result<(), String> {
+    let a: Vec<Vec<f64>> = build_m(pat, m, n, dev).iter().map(|r| r.iter().map(|v| v * scale).collect()).collect();
+    let c: Vec<f64> = (0..m).map(|i| ((i as f64) * 0.5 - 1.0) * scale).collect();
     for (delta, dyadic) in deltas() {
         // besides the fixed lattice: points with a coordinate in [-delta, 0) (the perturbed coordinate lands on / crosses zero)
         let mut pts = points(n);
@@ -90,16 +95,16 @@ fn affine_case(m: usize, n: usize, pat: usize, dev: Option<(usize, usize)>, acc:
             };
             let jac = Mat64::jacobian(Vector::create(p.clone()), &f, delta);
             ensure!(jac.rows() == m && jac.cols() == n, "shape {}x{} for a map R^{} -> R^{}", jac.rows(), jac.cols(), n, m);
-            let fmax = (0..m).map(|i| c[i].abs() + (0..n).map(|j| (a[i][j] * p[j]).abs()).sum::<f64>()).fold(1.0, f64::max);
+            let fmax = (0..m).map(|i| c[i].abs() + (0..n).map(|j| (a[i][j] * p[j]).abs()).sum::<f64>()).fold(scale, f64::max);
             for i in 0..m {
                 for j in 0..n {
                     if drift_point {
-                        let tol = 8.0 * f64::EPSILON * fmax / delta + 1e-12;
+                        let tol = 8.0 * f64::EPSILON * fmax / delta + 1e-12 * scale;
                         ensure!((jac[(i, j)] - a[i][j]).abs() <= tol, "m={} n={} delta=2^{}: J[{},{}] = {} expected {} (tol {:e}) at {:?}", m, n, delta.log2(), i, j, jac[(i, j)], a[i][j], tol, p);
                     } else if dyadic {
                         ensure!(jac[(i, j)] == a[i][j], "m={} n={} delta=2^{}: J[{},{}] = {} expected exactly {} at {:?}", m, n, delta.log2(), i, j, jac[(i, j)], a[i][j], p);
                     } else {
-                        let tol = 8.0 * f64::EPSILON * fmax / delta + 1e-12;
+                        let tol = 8.0 * f64::EPSILON * fmax / delta + 1e-12 * scale;
                         ensure!((jac[(i, j)] - a[i][j]).abs() <= tol, "delta=1e-8: J[{},{}] = {} expected {} (tol {:e})", i, j, jac[(i, j)], a[i][j], tol);
                     }
                 }
@@ -127,8 +132,13 @@ fn affine_case(m: usize, n: usize, pat: usize, dev: Option<(usize, usize)>, acc:
 }
 
 fn affine_case_cmplx(m: usize, n: usize, pat: usize) -> Result<(), String> {
+    affine_case_cmplx_zc(m, n, pat, None)
+}
+/// `zero_col`: a variable the map ignores (the perturbed evaluation equals the unperturbed one: a shortcut taken there must still
+/// restore the coordinate - the call log shows it)
+fn affine_case_cmplx_zc(m: usize, n: usize, pat: usize, zero_col: Option<usize>) -> Result<(), String> {
     let a = build_m(pat, m, n, None);
-    let ci = |i: usize, j: usize| Cmplx::new(a[i][j], m_entry(1 - pat, i, j));
+    let ci = |i: usize, j: usize| if Some(j) == zero_col { Cmplx::new(0.0, 0.0) } else { Cmplx::new(a[i][j], m_entry(1 - pat, i, j)) };
     for p in points(n).into_iter().take(7) {
         let pz: Vec<Cmplx> = p.iter().enumerate().map(|(k, x)| Cmplx::new(*x, COORDS[(k + 2) % 5])).collect();
         for (delta, dyadic) in deltas() {
@@ -226,7 +236,7 @@ fn smooth_case(m: usize, n: usize, acc: &mut Acc) -> Result<(), String> {
 fn main() {
     let ctx = Ctx::from_args("C18");
     ctx.level("exploration");
-    ctx.rule("E1: every shape (m,n) in 1..6 x 1..6 (m<n, m=n, m>n), affine maps x -> Mx + c with two dyadic matrices, every single-entry deviation of M and every zero column of M (a variable the map ignores), every point of {-4,-1.5,0,0.25,3}^n for n<=3 (thorough n<=5) and 5 corner/centre points above, every step 2^-4..2^-26 and 1e-8, through Mat64::jacobian and Matrix::<Cmplx>::jacobian_cmplx (plus twelve larger shapes up to 64 x 2 / 5 x 33): shape exactly m x n, entries exactly M for dyadic steps (all arithmetic exact) and within rounding for 1e-8; the closure logs its arguments: call 0 is the point, call j+1 is the point with coordinate j increased by exactly delta and all others restored - bit for bit, also for coordinates that x + delta - delta does not give back (2^-60, 4 - 2^-51, an imaginary part -0.0), and the perturbed coordinate keeps its imaginary part bit for bit; smooth maps within 10*delta*max|F''|. Non-trivial: m < n, m > n, n >= 2.");
+    ctx.rule("E1: every shape (m,n) in 1..6 x 1..6 (m<n, m=n, m>n), affine maps x -> Mx + c with two dyadic matrices, every single-entry deviation of M and every zero column of M (a variable the map ignores; real and complex), M and c multiplied by 2^1000 and 2^-1000, every point of {-4,-1.5,0,0.25,3}^n for n<=3 (thorough n<=5) and 5 corner/centre points above, every step 2^-4..2^-26 and 1e-8, through Mat64::jacobian and Matrix::<Cmplx>::jacobian_cmplx (plus twelve larger shapes up to 64 x 2 / 5 x 33): shape exactly m x n, entries exactly M for dyadic steps (all arithmetic exact) and within rounding for 1e-8; the closure logs its arguments: call 0 is the point, call j+1 is the point with coordinate j increased by exactly delta and all others restored - bit for bit, also for coordinates that x + delta - delta does not give back (2^-60, 4 - 2^-51, an imaginary part -0.0), and the perturbed coordinate keeps its imaginary part bit for bit; smooth maps within 10*delta*max|F''|. Non-trivial: m < n, m > n, n >= 2.");
     ctx.assume("exactness for dyadic data relies on every product and sum fitting in 53 bits, which holds for the chosen alphabets");
     ctx.threshold("smooth_jacobian_error_over_tolerance", 1.0);
     ctx.require(&["wide (m < n)", "tall (m > n)", "jacobian calls", "shape with m or n above 6"]);
@@ -252,9 +262,14 @@ fn main() {
             let mut local = Acc::new("t");
             let res = catch(|| {
                 affine_case(m, n, pat, None, &mut local)?;
+                if pat == 0 {
+                    affine_case_scaled(m, n, pat, None, 2f64.powi(1000), &mut local)?;
+                    affine_case_scaled(m, n, pat, None, 2f64.powi(-1000), &mut local)?;
+                }
                 for dj in 0..n {
                     // variable dj does not enter the map (zero column of M)
                     affine_case(m, n, pat, Some((usize::MAX, dj)), &mut local)?;
+                    affine_case_cmplx_zc(m, n, pat, Some(dj))?;
                 }
                 if thorough {
                     for di in 0..m {
